@@ -29,12 +29,14 @@ from vlib import core
 PID = 'C11'
 LEVEL = 'fault_enumeration'
 BUDGET_S = {'quick': 40, 'thorough': 600}
-FLOORS = {'quick': {'tasks': 1, 'required_tiles_checked': 1, 'forbidden_tiles_checked': 1, 'interruption_points': 1,
-                    'resumed_runs': 1, 'resume_with_saved_progress': 1, 'resume_skipped_work': 1},
-          'thorough': {'tasks': 1, 'required_tiles_checked': 1, 'forbidden_tiles_checked': 1,
-                       'interruption_points': 1, 'resumed_runs': 1, 'resume_with_saved_progress': 1,
-                       'resume_skipped_work': 1}}
-RULE = ("case = one generated seed() call: grid (srs 3857/4326/25832, global/regional/integer bbox, tile size, ll/ul "
+FLOORS = {'quick': {'tasks': 190, 'required_tiles_checked': 9500, 'forbidden_tiles_checked': 2600,
+                    'interruption_points': 4300, 'resumed_runs': 2500, 'resume_with_saved_progress': 1900,
+                    'resume_skipped_work': 2700, 'double_interruptions': 600},
+          'thorough': {'tasks': 780, 'required_tiles_checked': 33000, 'forbidden_tiles_checked': 25000,
+                       'interruption_points': 39000, 'resumed_runs': 12000, 'resume_with_saved_progress': 9000,
+                       'resume_skipped_work': 30000, 'double_interruptions': 4000}}
+RULE = ("3 directed cases on standard grids (witnesses of the mechanisms found) + generated cases. case = one seed() "
+        "call: grid (srs 3857/4326/25832, global/regional/integer bbox, tile size, ll/ul "
         "origin, ladder factor 2 / sqrt2 / free factor 1.3..3 / explicit list), meta size 1x1..3x2, 1-2 seed tasks with "
         "level subsets (contiguous, gaps, single, all) and coverages (none, bbox, bbox with edges placed within "
         "+-{0,.05,.09,.11,.5,2,5} px of tile edges of any level, strips along the grid edge, polygons, holes, "
@@ -53,6 +55,10 @@ ASSUMPTIONS = [
     "vertex-wise and the densified (32 points per edge) pyproj transformation (bbox: envelope of 16 / 256 points)",
     "skip_geoms_for_last_levels=N: on the last N chosen levels every tile that touches the coverage extent and a "
     "non-forbidden meta tile of the chosen level before them is don't-care; required tiles stay required",
+    "the extent of a multi-coverage is the union of its parts' lon/lat bounding boxes (only used to widen the "
+    "skip_geoms don't-care band and to label causes)",
+    "a seed() that raises something other than an interruption is continued twice from its progress file; it is a "
+    "violation only if required tiles were never handed over by the union of these runs",
     "a meta tile is cached / stale as a whole (the walker asks the tile manager for the main tile only)",
     "seed() is deterministic for a given task and progress file: a continued run for a progress file already "
     "observed for the same task is taken from the first observation (10% of these are re-executed and compared)",
@@ -417,8 +423,14 @@ def gen_coverage_(rng, gi, zmax, allow_multi=True):
         cls = 'hole' if kind == 'hole' else 'polygon'
         if kind == 'other_polygon':
             o = other_srs_for(gi, rect)
-            if o:
-                return {'kind': 'geom', 'cls': 'polygon@other', 'srs': o, 'polys': to_srs(polys, gi.srs, o)}
+            lim = WORLD.get(gi.srs) if gi.srs != 'EPSG:25832' else None
+            inside = lim is None or all(lim[0] < c[0] < lim[2] and max(lim[1], -85.0) < c[1] < min(lim[3], 85.0) or
+                                        (gi.srs != 'EPSG:4326' and lim[0] < c[0] < lim[2] and lim[1] < c[1] < lim[3])
+                                        for pp in polys for rr in pp for c in rr)
+            if o and inside:
+                tp = to_srs(polys, gi.srs, o)
+                if all(math.isfinite(v) for pp in tp for rr in pp for c in rr for v in c):
+                    return {'kind': 'geom', 'cls': 'polygon@other', 'srs': o, 'polys': tp}
         return {'kind': 'geom', 'cls': cls, 'srs': gi.srs, 'polys': polys}
 
     if kind == 'multipolygon':
@@ -1054,7 +1066,7 @@ def fault_enumeration(run, case, world, full, rng, explicit=None):
     full_sets = handed_sets(full.handed)
     memo = {}
     pts = choose_points(run, rng, full, explicit)
-    ndouble = run.pick(4, 30)
+    ndouble = run.pick(4, 12)
     doubles = set(rng.sample(range(len(pts)), min(len(pts), ndouble))) if explicit is None else set()
     if explicit is None and len(pts) == 2 * full.nput + 2 * full.nrep:
         run.count('tasks_with_all_points')
@@ -1242,7 +1254,34 @@ def setup_shard(run):
     seeder.queue_class = RecQueue
 
 
+def _directed(grid, meta, levels, cov, lshape):
+    return {'grid': grid, 'meta_size': meta, 'meta_buffer': 0, 'skip_geoms': 0, 'mode': 'all', 'partial': 0.0, 'salt': 1,
+            'rescale': False, 'tasks': [{'name': 't0', 'levels': levels, 'lshape': lshape, 'coverage': cov}]}
+
+
+_WEBMERC = {'srs': 'EPSG:3857', 'bbox': list(WORLD['EPSG:3857']), 'tile_size': [256, 256], 'origin': 'nw',
+            'bclass': 'global', 'lclass': 'f2', 'res_factor': 2.0, 'num_levels': 20}
+# standard-grid witnesses of the three mechanisms found by the generated cases (see the final report of the check)
+DIRECTED = {
+    # coverage starts 5 km south of the equator: the level-1 tile south of it overlaps by < 0.1 px of level 1
+    'webmercator_bbox_5km_beyond_level1_edge': _directed(
+        _WEBMERC, [1, 1], list(range(0, 13)),
+        {'kind': 'bbox', 'cls': 'bbox_edge', 'srs': 'EPSG:3857', 'bbox': [1000000.0, -5000.0, 1100000.0, 100000.0]}, 'all'),
+    # 50 m x 100 m in Greenwich, 50 m west of the prime meridian (a meta tile edge from level 3 on)
+    'webmercator_small_area_next_to_meridian': _directed(
+        _WEBMERC, [4, 4], list(range(0, 17)),
+        {'kind': 'bbox', 'cls': 'small', 'srs': 'EPSG:3857', 'bbox': [-100.0, 6710000.0, -50.0, 6710100.0]}, 'all'),
+    # regional grid, 512.9 px wide on level 0: two level-0 tiles end 230 m before the right border
+    'regional_grid_full_extent_last_column': _directed(
+        {'srs': 'EPSG:25832', 'bbox': [300000.0, 5600000.0, 431302.4, 5700000.0], 'tile_size': [256, 256], 'origin': 'll',
+         'bclass': 'regional', 'lclass': 'list', 'res': [256.0, 128.0, 64.0, 32.0, 16.0]},
+        [1, 1], [3, 4], {'kind': 'none', 'cls': 'none'}, 'contig'),
+}
+
+
 def gen_cases(run):
+    for k, name in enumerate(sorted(DIRECTED)):
+        yield {'i': -1 - k, 'directed': name}
     n = run.pick(400, 2600)
     for i in range(n):
         yield {'i': i}
@@ -1250,8 +1289,10 @@ def gen_cases(run):
 
 def run_case(run, case):
     rng = run.rng('task', case['i'])
-    spec = case.get('spec') or gen_spec(rng)
+    spec = case.get('spec') or (DIRECTED[case['directed']] if 'directed' in case else gen_spec(rng))
     world = World(spec)
+    if 'directed' in case:
+        run.count('directed_cases')
     gi = world.gi
     # ---- oracle preparation (before anything runs) ----------------------------------------------------------
     oracles = []
